@@ -275,6 +275,21 @@ class Session:
             e0, e1 = r0.get_beta_values(), r1.get_beta_values()
             p0 = r0.get_estimated_parameters(only_robust=False)
             p1 = r1.get_estimated_parameters(only_robust=False)
+            for u, r in ((self.U[0], r0), (self.U[1], r1)):
+                est = r.get_beta_values()
+                for rb in r.data.betas:
+                    inv = {u.nm(n): n for n in self.free_names()}
+                    if rb.name not in inv:
+                        ctx.fail('I03.results', f'results list a parameter {rb.name} that is not a free parameter')
+                    bd = self.store[inv[rb.name]]['bounds'] or [None, None]
+                    if (rb.lb, rb.ub) != tuple(bd):
+                        ctx.fail('I03.bounds', f'results [{algo}]: bounds of {inv[rb.name]} ({rb.name}) are '
+                                               f'{(rb.lb, rb.ub)}, declared {bd}')
+                    if float(rb.value) != float(est[rb.name]):
+                        ctx.fail('I03.results', f'results [{algo}]: value stored for {rb.name} is {rb.value!r}, '
+                                                f'get_beta_values() gives {est[rb.name]!r}')
+                if list(r.data.betaNames) != sorted(u.nm(n) for n in self.free_names()):
+                    ctx.fail('I03.results', f'results list the parameters as {list(r.data.betaNames)}')
             for n in self.free_names():
                 n0, n1 = self.U[0].nm(n), self.U[1].nm(n)
                 if abs(float(e0[n0]) - float(e1[n1])) > 2e-4 * max(1.0, abs(float(e0[n0]))):
